@@ -21,7 +21,7 @@ CHECKS['C12'] = {
         'Python/Ruby clients are not exercised',
     ],
     'units': [
-        unit('client', 'keepclient_c12', '^TestVerifC12ClientProbeOrder$', {'shards': 10, 'checks': 1500}, {'shards': 16, 'checks': 40000, 'timeout': 1500}),
-        unit('balancer', 'keepbalance_c12', '^TestVerifC12BalancerRanking$', {'shards': 6, 'checks': 500}, {'shards': 16, 'checks': 12000, 'timeout': 1500}),
+        unit('client', 'keepclient_c12', '^TestVerifC12ClientProbeOrder$', {'shards': 10, 'checks': 1500}, {'shards': 16, 'checks': 80000, 'timeout': 3000}),
+        unit('balancer', 'keepbalance_c12', '^TestVerifC12BalancerRanking$', {'shards': 6, 'checks': 500}, {'shards': 16, 'checks': 24000, 'timeout': 3000}),
     ],
 }
